@@ -1,5 +1,10 @@
 #!/bin/sh
-# Offline setup: make sure Hypothesis is importable in /venv (it normally already is).
+# Offline setup: make sure Hypothesis is importable in /venv (it normally already is) and put
+# atheris (used only by the thorough tier's coverage-guided stage, vk/fuzz.py) into ./.deps.
+HERE=$(cd "$(dirname "$0")" && pwd)
 /venv/bin/python -c "import hypothesis" 2>/dev/null || \
   PIP_NO_INDEX=1 /venv/bin/pip install --no-index --find-links /opt/veriftools/wheels hypothesis
+[ -d "$HERE/.deps/atheris" ] || \
+  PIP_NO_INDEX=1 /venv/bin/pip install -q --no-index --find-links /opt/veriftools/wheels --target "$HERE/.deps" atheris \
+  || echo "setup: atheris not installed; the coverage-guided stage will report itself skipped"
 /venv/bin/python -c "import hypothesis, numpy, scipy; print('setup ok: hypothesis', hypothesis.__version__)"
